@@ -380,6 +380,9 @@ const (
 	zz2PutMany10
 	zz2PutMany00
 	zz2PutManyNone
+	zz2PutMany001 // a duplicate followed (in key order) by a distinct block
+	zz2PutMany110 // a duplicate preceded (in key order) by a distinct block
+	zz2PutMany010
 )
 
 type zz2Res struct {
@@ -456,6 +459,12 @@ func zz2Do(bs Blockstore, pool []*zz2Ent, op int, c cid.Cid, target, form int, c
 		r.errk = zz2ErrKind(bs.PutMany(ctx, []blocks.Block{pool[target].block(form), pool[target].block(0)}))
 	case zz2PutManyNone:
 		r.errk = zz2ErrKind(bs.PutMany(ctx, nil))
+	case zz2PutMany001:
+		r.errk = zz2ErrKind(bs.PutMany(ctx, []blocks.Block{pool[0].block(form), pool[0].block(0), pool[1].block(0)}))
+	case zz2PutMany110:
+		r.errk = zz2ErrKind(bs.PutMany(ctx, []blocks.Block{pool[1].block(form), pool[1].block(0), pool[0].block(0)}))
+	case zz2PutMany010:
+		r.errk = zz2ErrKind(bs.PutMany(ctx, []blocks.Block{pool[0].block(form), pool[1].block(0), pool[0].block(0)}))
 	}
 	return r
 }
@@ -587,6 +596,14 @@ func zz2NewWorld(layers int, arbitrary bool, lower func(*zz2Back) Blockstore, lr
 		w.top = w.bc
 		if arbitrary {
 			active := zz2Bool("active")
+			if active {
+				// "active" is reached the way the product reaches it: a complete enumeration (this also puts
+				// every stored key into the filter); the harness never writes the flag itself
+				if err := w.bc.build(ctx); err != nil {
+					panic(err)
+				}
+				w.back.enumCalls = 0
+			}
 			for i, e := range w.pool {
 				// the invariant forces present keys into an active filter; everything else is arbitrary
 				// (false positives, keys deleted since, leftovers of a failed build)
@@ -598,7 +615,9 @@ func zz2NewWorld(layers int, arbitrary bool, lower func(*zz2Back) Blockstore, lr
 					w.bc.bloom.Load().AddTS(e.m)
 				}
 			}
-			w.bc.active.Store(active)
+			if w.bc.BloomActive() != active {
+				panic("zz: harness bug: bloom pre-state")
+			}
 		}
 	}
 	w.back.calls = 0
@@ -716,7 +735,7 @@ func zz2Step(layers int, ops []int) {
 		switch op {
 		case zz2Put, zz2PutMany00:
 			verifrt.Assert("C02.step-put-adds-to-live-filter", f.HasTS(w.pool[target].m))
-		case zz2PutMany01, zz2PutMany10:
+		case zz2PutMany01, zz2PutMany10, zz2PutMany001, zz2PutMany110, zz2PutMany010:
 			verifrt.Assert("C02.step-putmany-adds-to-live-filter", f.HasTS(w.pool[0].m) && f.HasTS(w.pool[1].m))
 		}
 	}
@@ -729,7 +748,7 @@ func zz2Step(layers int, ops []int) {
 
 var (
 	zz2ReadOps  = []int{zz2Has, zz2Get, zz2GetSize, zz2View}
-	zz2WriteOps = []int{zz2Put, zz2Delete, zz2PutMany01, zz2PutMany10, zz2PutMany00, zz2PutManyNone}
+	zz2WriteOps = []int{zz2Put, zz2Delete, zz2PutMany01, zz2PutMany10, zz2PutMany00, zz2PutManyNone, zz2PutMany001, zz2PutMany110, zz2PutMany010}
 )
 
 func HarnessC02StepTQRead()     { zz2Step(zz2LTQ, zz2ReadOps) }
